@@ -48,7 +48,7 @@ func (s *recSigner) Sign(ctx context.Context, desc ocispec.Descriptor, opts nota
 
 type recSignerWithAnnotations struct{ *recSigner }
 
-func (s recSignerWithAnnotations) PluginAnnotations() map[string]string { return s.plugin }
+func (s recSignerWithAnnotations) PluginAnnotations() map[string]string { return copyMap(s.plugin) }
 
 func deepDesc(d ocispec.Descriptor) ocispec.Descriptor {
 	b, _ := json.Marshal(d)
@@ -228,6 +228,11 @@ func main() {
 		var sgn notation.Signer = rs
 		if seq%3 == 0 {
 			rs.plugin = map[string]string{"plugin.annotation": "p"}
+			if seq%6 == 0 {
+				// a plugin may not replace the annotations the library generates itself
+				rs.plugin["io.cncf.notary.x509chain.thumbprint#S256"] = `["00"]`
+				rs.plugin[ocispec.AnnotationCreated] = "1999-01-01T00:00:00Z"
+			}
 			sgn = recSignerWithAnnotations{rs}
 		}
 		successes := 0
